@@ -1148,6 +1148,11 @@ where
                 if let Some(ty) = self.resolve_indexed_access(obj_type, index_type) {
                     runtime_types.extend(self.infer_runtime_type(&ty));
                 }
+                if runtime_types.is_empty() {
+                    // nothing could be resolved (e.g. an inherited member): no runtime check,
+                    // an empty type list would reject everything
+                    runtime_types.insert(None);
+                }
             }
             TsType::TsOptionalType(TsOptionalType { type_ann, .. }) => {
                 runtime_types.extend(self.infer_runtime_type(type_ann));
